@@ -340,6 +340,11 @@ def run_replay(b, sim, scenarios, verbose=False, timeout=600, parallel=None, env
             p.kill()
             p.wait()
             hung = True
+        if os.environ.get('VERIF_SHOW_STDERR'):
+            try:
+                sys.stdout.write(open(os.path.join(wd, 'err.%d' % w), errors='replace').read()[-20000:])
+            except OSError:
+                pass
         recs = read_jsonl(os.path.join(wd, 'out.%d' % w))
         done = set()
         for r in recs:
